@@ -9,12 +9,10 @@ import (
 	"path/filepath"
 	"servitor/config"
 	"servitor/feed"
-	"servitor/history"
 	"servitor/mime"
 	"servitor/pub"
 	"servitor/verifrt"
 	"strings"
-	"sync"
 	"time"
 )
 
@@ -63,14 +61,9 @@ type frameLog struct {
 }
 
 func newTestState(width, height int, log *frameLog) *State {
-	s := &State{
-		h:      history.History[*Page]{},
-		width:  width,
-		height: height,
-		m:      &sync.Mutex{},
-		mode:   normal,
-	}
-	s.output = func(f string) { log.frames = append(log.frames, f) }
+	// built by the real constructor, so that whatever it initialises is there
+	s := NewState(width, height, func(f string) { log.frames = append(log.frames, f) })
+	s.mode = normal
 	return s
 }
 
